@@ -506,6 +506,12 @@ func runCase(spec *caseSpec) *caseResult {
 			if s.RstAcked {
 				res.Obs["client_rst_acked_streams"]++
 			}
+			// the stream was reset under a handler that was in the middle of the body
+			if s.ClientRst || s.SrvRst {
+				if d, c, _, clean := cs.Done(s.Token); d && !clean && c > 0 && c < s.Sent && cs.MaxRead(s.Token) > 0 {
+					res.Obs["reset_while_handler_reading"]++
+				}
+			}
 		}
 		if healthy && allDone {
 			res.Obs["cases_quiescent_healthy"]++
